@@ -203,6 +203,13 @@ def prop_ops(case, ctx):
     # scaled mixture
     mx = ctx.call("C11.mixture.raises", lambda: (case["w1"] * p) | (q * case["w2"]))
     compare(ctx, "C11.mixture", mx, RP.mix(F(case["w1"]), rp, F(case["w2"]), rq), tol, "mixture")
+    # the operands of `|` unscaled (weights 1): every kind as the left and as the right operand
+    mx = ctx.call("C11.mixture.raises", lambda: p | q)
+    compare(ctx, "C11.mixture_unscaled", mx, RP.mix(F(1), rp, F(1), rq), tol, "p | q")
+    mx = ctx.call("C11.mixture.raises", lambda: p | (q * case["w2"]))
+    compare(ctx, "C11.mixture_unscaled", mx, RP.mix(F(1), rp, F(case["w2"]), rq), tol, "p | w2*q")
+    mx = ctx.call("C11.mixture.raises", lambda: (case["w1"] * p) | q)
+    compare(ctx, "C11.mixture_unscaled", mx, RP.mix(F(case["w1"]), rp, F(1), rq), tol, "w1*p | q")
     # conjunction
     rj = RP.conj(rp, rq)
     if rj is not None:
